@@ -33,7 +33,7 @@ prop("C03", [H("H03_dv", common={"param": "maxDocs=2,maxSeq=4"}, quick={"wall": 
 prop("C04", [H("K7_footer"), H("H04_persist", quick={"wall": "150s", "shards": 16}, thorough={"wall": "900s", "shards": 16})])
 prop("C05", [H("H05_merge", common={"param": "maxDocs=1,tieReopen=1,maxOcc=1"}, quick={"wall": "150s", "shards": 12}, thorough={"wall": "1200s", "shards": 16, "param": "maxDocs=2,tieReopen=0,maxOcc=1"}),
              # multi-valued stored fields (up to 3 occurrences with array positions), every field present and stored
-             H("H05_merge", common={"param": "maxDocs=1,tieReopen=1,maxOcc=3,storeAll=1,always=1"}, quick={"wall": "150s", "shards": 4}, thorough={"wall": "1200s", "shards": 16, "param": "maxDocs=2,tieReopen=1,maxOcc=3,storeAll=1,always=1"})])
+             H("H05_merge", common={"param": "maxDocs=1,tieReopen=1,maxOcc=3,storeAll=1,always=1,fixAP=1,symTyp=0"}, quick={"wall": "150s", "shards": 4}, thorough={"wall": "1200s", "shards": 16, "param": "maxDocs=2,tieReopen=1,maxOcc=3,storeAll=1,always=1,fixAP=1,symTyp=0"})])
 prop("C06", KERNELS_CODEC[2:] + [H("H06_merge", common={"param": "maxDocs=1,tieReopen=1"}, quick={"wall": "150s", "shards": 16}, thorough={"wall": "1200s", "shards": 16, "param": "maxDocs=2,tieReopen=0"})])
 prop("C07", [
     # everything crossed on small lists
